@@ -230,11 +230,23 @@ PAULI = {"I": np.eye(2), "X": np.array([[0., 1.], [1., 0.]]), "Y": np.array([[0.
          "Z": np.array([[1., 0.], [0., -1.]])}
 
 
+_site_cache = {}
+
+
 def site_op(L, letter, sites):
     """kron over sites 0..L-1 (site 0 = slowest varying index) of `letter` on `sites`, identity elsewhere"""
-    m = sparse.identity(1, dtype=complex, format="csr")
-    for k in range(L):
-        m = sparse.kron(m, sparse.csr_matrix(PAULI[letter] if k in sites else PAULI["I"]), format="csr")
+    key = (L, letter, tuple(sites))
+    m = _site_cache.get(key)
+    if m is None:
+        if len(sites) == 2:
+            m = (site_op(L, letter, sites[:1]) @ site_op(L, letter, sites[1:])).tocsr()
+        else:
+            m = sparse.identity(1, dtype=complex, format="csr")
+            for k in range(L):
+                m = sparse.kron(m, sparse.csr_matrix(PAULI[letter] if k in sites else PAULI["I"]), format="csr")
+        if len(_site_cache) > 3000:
+            _site_cache.clear()
+        _site_cache[key] = m
     return m
 
 
@@ -334,7 +346,8 @@ def impl(case):
                "nq": int(H.nsites), "unitary": bool(H.is_unitary())}
         if L <= case.get("dense", 0):
             out["_M"] = H.as_matrix()
-            out["_Mop"] = po.as_matrix()
+            if L <= 4:
+                out["_Mop"] = po.as_matrix()
         return out
     if op == "ham.hubbard":
         lat, adj = get_lattice(case["lat"])
@@ -585,7 +598,7 @@ def oracle(case, o):
                 bad.append((f"C15:matrix-nan:{cls}", "as_matrix() contains NaN/Inf"))
             elif not mat_close(o["_M"], ref):
                 bad.append((f"C15:matrix:{cls}:{latcls}", f"as_matrix() differs from the edge/site sum by {dmax(o['_M'] - ref):.3g} (edge list from {src})"))
-            if not mat_close(o["_Mop"], o["_M"]):
+            if "_Mop" in o and not mat_close(o["_Mop"], o["_M"]):
                 bad.append((f"C15:matrix-views:{cls}", "as_matrix() != as_pauli_operator().as_matrix()"))
             if o["herm"] and not mat_close(o["_M"].conj().T, o["_M"]):
                 bad.append((f"C15:hermitian:{cls}", f"is_hermitian() is True but |H - H^dagger| = {dmax(o['_M'] - o['_M'].conj().T):.3g}"))
@@ -816,13 +829,14 @@ def gen_spin(tier, rng, pool):
         L = nsites_of(desc)
         if L > (16 if th else 13):
             continue
-        dense = DENSE_MAX_SPIN if L <= (10 if th else 9) else 0
         for _ in range(reps):
-            for conv in ("zz", "xx"):
+            # dense reference matrix: always for small lattices, for a third of the larger ones
+            dense = [DENSE_MAX_SPIN if (L <= 5 or (L <= (10 if th else 8) and rng.random() < 0.34)) else 0 for _ in range(3)]
+            for conv, dn in zip(("zz", "xx"), dense):
                 yield {"op": "ham.ising", "lat": desc, "ptype": "qubit", "J": rand_real_arg(rng), "h": rand_real_arg(rng),
-                       "g": rand_real_arg(rng), "conv": conv, "dense": dense}
+                       "g": rand_real_arg(rng), "conv": conv, "dense": dn}
             yield {"op": "ham.heisenberg", "lat": desc, "ptype": "qubit", "J": [rand_real_arg(rng) for _ in range(3)],
-                   "h": [rand_real_arg(rng) for _ in range(3)], "dense": dense}
+                   "h": [rand_real_arg(rng) for _ in range(3)], "dense": dense[2]}
     # fixed boundary couplings on a few lattices
     small = [d for d in pool if nsites_of(d) <= 6]
     for desc in small[:: (2 if th else 5)]:
